@@ -36,6 +36,12 @@ pub fn full_pieces(ev: Ev) -> &'static Vec<String> {
             v.push(s.to_string());
         }
         v.push("9".repeat(400));
+        // literals with 33, 40 and 100 fractional digits (buffers and caps on the fraction): followed by another piece
+        // such as ".5" or "1.2.3" they must still be rejected
+        for n in [32usize, 33, 40, 100] {
+            v.push(format!("1.{}", "0".repeat(n)));
+            v.push(format!("3.{}", "1415926535".repeat(n / 10 + 1)[..n].to_string()));
+        }
         if ev == Ev::Cpx {
             v.push("2i".into());
             v.push("i".into());
@@ -54,6 +60,14 @@ pub fn full_pieces(ev: Ev) -> &'static Vec<String> {
                         v.push(n.to_string());
                     }
                 }
+            }
+        }
+        // names found in /repo's tokenizers that this harness does not know (./check extracts them, like a fuzzing
+        // dictionary): new vocabulary is reachable by no amount of short-string enumeration
+        for k in extra_keywords() {
+            let piece = format!("{}(", k);
+            if !v.contains(&piece) {
+                v.push(piece);
             }
         }
         for f in gen::foreign_fragments(ev).into_iter().take(12) {
@@ -122,14 +136,22 @@ fn seq_decode(mut idx: u64, n: u64, maxlen: u32) -> Vec<usize> {
     Vec::new()
 }
 
+/// Keywords that ./check found in /repo/src/*/tokenizer.rs and that are not part of the known vocabulary
+/// (SCVERIF_EXTRA_KEYWORDS, comma separated).
+pub fn extra_keywords() -> Vec<String> {
+    std::env::var("SCVERIF_EXTRA_KEYWORDS").ok().map(|s| s.split(',').filter(|w| !w.is_empty()).map(|w| w.to_string()).collect()).unwrap_or_default()
+}
+
 /// Every function name (of any evaluator) called with 0..4 arguments drawn from a list of sizes that matter for
 /// integer products and exponents: the arity a name is documented with is not the only one a parser may accept.
 fn arity_cases() -> &'static Vec<String> {
     static CELL: OnceLock<Vec<String>> = OnceLock::new();
     CELL.get_or_init(|| {
-        let args = ["@", "2", "9000000000", "4000000007", "65", "0", "200", "0.5"];
+        let args = ["@", "2", "9000000000", "4000000007", "65", "0", "200", "0.5", "(0/0)", "(0-7)"];
         let mut v = Vec::new();
-        for f in vocab::all_func_names() {
+        let mut names: Vec<String> = vocab::all_func_names().iter().map(|s| s.to_string()).collect();
+        names.extend(extra_keywords());
+        for f in &names {
             v.push(format!("{}()", f));
             for a in args {
                 v.push(format!("{}({})", f, a));
